@@ -13,7 +13,10 @@ TProbe ==
       IN /\ Chk("BookMoveIsLegal", ProbeLegal(p, res), <<Tr[l].kind, res>>)
          /\ (Tr[l].kind = "valid") => Chk("WellFormedBookIsFaithful", ProbeFaithful(p, Tr[l].stored, res, Tr[l].none, Tr[l].k), <<Tr[l].stored, res, Tr[l].none>>)
          /\ (Tr[l].kind \in {"missing", "missing-absent", "valid-absent"}) => Chk("NoMoveWithoutEntry", res = {}, <<Tr[l].kind, res>>)
+\* removing one castling right / flipping the side to move changes the key by that feature's published constant
+TKeyDiff == /\ Ev("KeyDiff")
+            /\ Chk("PolyglotKeyUsesPublishedConstant", Tr[l].diff = PolyglotConst[Tr[l].what], <<Tr[l].what, Tr[l].castle, Tr[l].diff>>)
 TInit == l = 1
-TNext == TMeta \/ TProbe
+TNext == TMeta \/ TProbe \/ TKeyDiff
 Accepted == TLCGet("stats").diameter - 1 = Len(Tr) \/ (PrintT(<<"REJECTED_AT", TLCGet("stats").diameter>>) /\ FALSE)
 =============================================================================
